@@ -25,7 +25,7 @@ def dec_c10(fdp):
     start = [["alloc", fdp.ConsumeIntInRange(0, 4)], ["list", fdp.ConsumeIntInRange(1, 4)], ["empty", 0], ["default", 1]][sk]
     names = ["get", "slice", "iter", "append", "extend", "insert", "pop", "del", "set", "reverse", "clear", "ctor_list", "copy",
              "append_other", "append_multi", "extend_other", "append_array", "insert_other", "insert_multi", "set_other", "set_multi",
-             "ctor_list_other", "ctor_list_other_first"]
+             "ctor_list_other", "ctor_list_other_first", "append_empty", "insert_empty", "set_empty", "ctor_list_multi", "ctor_list_empty_elem"]
     ops = []
     n = fdp.ConsumeIntInRange(1, 40)
 
@@ -38,7 +38,7 @@ def dec_c10(fdp):
         if fdp.remaining_bytes() == 0:
             break
         o = names[fdp.ConsumeIntInRange(0, len(names) - 1)]
-        if o in ("get", "insert", "del", "set", "insert_other", "insert_multi", "set_other", "set_multi"):
+        if o in ("get", "insert", "del", "set", "insert_other", "insert_multi", "set_other", "set_multi", "insert_empty", "set_empty"):
             ops.append([o, idx()])
         elif o == "slice":
             ops.append([o, optidx(), optidx(), [None, 1, -1, 2, -2, 3, -3][fdp.ConsumeIntInRange(0, 6)]])
